@@ -8,6 +8,13 @@ VERIF = os.path.dirname(os.path.dirname(os.path.abspath(__file__)))
 
 # id -> (engine, technique, level text, level note, design ref)
 CHECKS = {
+    "C01": (
+        "progmc c01",
+        "bounded-depth state-space exploration: every statement sequence of length <= k over an 85-statement menu on a fixed typed environment, each compiled and executed by the real CLI, against a Python reference semantics of every menu statement",
+        "A program is a fixed prologue declaring a 15-variable environment (ints of four widths, bool, char, array, slice, struct, enum, optional, error union, ^mut pointer, function pointer), every sequence of <= 2 (thorough 3) statements from an 85-statement menu (arithmetic, casts, compound assignment, aggregate copies, enum/optional/error-union construction, switch with payloads and default arm, #unwrap/#is_variant, .try chains, pointer writes through three aliases, calls of helpers / lambdas / function pointers / varargs, while/loop/labelled break/continue, labelled block and if as values, early return) and an epilogue printing the whole environment: 7311 (thorough 621436) programs compiled by the real CLI and executed, stdout compared byte for byte with the reference semantics; plus a process-level family (main result as exit status for 7 result types, void main, early return, the four language-defined runtime faults: message, status 1, nothing after).",
+        "Sequences of <= 3 statements (not 40), nesting <= 3, 8 globals; sub-expressions with side effects only at statement level so no evaluation order is assumed.",
+        "§4 C01",
+    ),
     "C22": (
         "capy-verif lex-mc",
         "bounded-exhaustive input enumeration against invariants (every string <= k over token-class alphabets, every <= 3-word sequence) on the real lexer",
